@@ -126,7 +126,7 @@ def edits(e, rnd):
 
 
 def base_trees(tier, rnd):
-    ts = gen.d1q() + rnd.sample(gen.over(gen.d1q(), ks=(1, 2, 3)), 120 if tier == "quick" else 1500) + gen.random_trees(7, 60 if tier == "quick" else 800, depth=3)
+    ts = gen.d1q() + rnd.sample(gen.over(gen.d1q(), ks=(1, 2, 3)), 120 if tier == "quick" else 500) + gen.random_trees(7, 60 if tier == "quick" else 300, depth=3)
     ts += [J.Add(gen.X, gen.Y, J.Var("z")), J.Mul(gen.X, gen.Y, J.Var("z")), J.Add(J.KUn("NthPower", gen.X, 2), J.Const(3)),
            J.Mul(J.Const(2), J.Add(gen.X, gen.Y)), J.BUn("Exponential", gen.X, fl(2)), J.ConstV(fl(2)), J.ConstV(gen.q(1, 2))]
     return [t for t in gen.dedup(ts) if J.size(t) <= 12]
@@ -189,7 +189,7 @@ def gen_events(pid, tier, seed):
         for a, b, c in [(pts[0], pts[1], pts[2]), (pts[0], pts[3], pts[1]), (pts[4], pts[0], pts[5])]:
             ev.append({"kind": "trans", "a": a, "b": b, "c": c})
         # derivative objects: edit in expression / variable / point / early flag / already-computed state
-        for t in rnd.sample(bases, 60 if quick else 600):
+        for t in rnd.sample(bases, 60 if quick else 250):
             vs = sorted(J.variables(t)) or ["x"]
             v = vs[0]
             es = [x for _, x in edits(t, rnd)]
@@ -201,7 +201,7 @@ def gen_events(pid, tier, seed):
                 objs += [De(t), De(t, early=True), De(t, touched=True), De(J.Add(t, J.Const(3)), early=True)]
             for a in objs:
                 ev.append({"kind": "refl", "o": a})
-            for a, b in (rnd.sample([(a, b) for a in objs for b in objs], 40) if quick else [(a, b) for a in objs for b in objs]):
+            for a, b in rnd.sample([(a, b) for a in objs for b in objs], 40 if quick else 120):
                 ev.append({"kind": "cmp", "a": a, "b": b})
         # foreign objects
         for t in rnd.sample(bases, 25):
@@ -390,6 +390,9 @@ def run_impl(ev):
                     e.update(raised=False, result=J.expr_to_E(res), eq_ctor=bool(res == ctor) and repr(res) == repr(ctor) and type(res) is type(ctor))
             elif kind == "ctor":
                 run_ctor(e, S, ns)
+        except OverflowError:
+            e["kind"] = "skip"              # exact intermediates leave the floating-point range while an object is being built: excluded
+            continue
         except (S.DomainError, S.CoordinateMissing) as exc:
             if kind in ("cmp", "refl", "trans", "foreign", "print") and "Located" in json.dumps(e, default=str):
                 e["kind"] = "skip"          # LocatedDifferential cannot be constructed at a point outside the domain: not an event
